@@ -225,7 +225,8 @@ def multi_task(sl):
     vals = {k: fresh_real("thr_%s_%s" % k) for k in has}
 
     def res(side):
-        return {"op_metrics": [{"task": t, "operation": "op", "throughput": {"min": vals[(side, t)], "mean": None, "median": None, "max": None, "unit": "docs/s"},
+        # t1 is a named task that runs the operation "t2"; the task after it is named after that operation (the usual warm-up idiom)
+        return {"op_metrics": [{"task": t, "operation": "t2", "throughput": {"min": vals[(side, t)], "mean": None, "median": None, "max": None, "unit": "docs/s"},
                                 "latency": {}, "service_time": {}, "processing_time": {}, "error_rate": None, "duration": 1}
                                for t in ("t1", "t2") if has[(side, t)]]}
 
